@@ -152,3 +152,17 @@ EXPECTED_REFUTED = {
     P + ':bad_sum_to : loop#0 invariant[preserved]',
     P + ':bad_all_positive : loop#0 invariant[preserved]',
 }
+
+
+def ok_join_args(cmd, args):
+    """str.join over a concatenation with a sequence of symbolic length (shell command lines)"""
+    return ' '.join([cmd] + args)
+
+
+M.contract(P + ':ok_join_args', params=dict(cmd=Str, args=ListOf(Str)), returns=Str,
+           ensures={'no-args: the command itself': lambda cmd, args, result: implies(len(args) == 0, result == cmd),
+                    'one-arg: separated by one space': lambda cmd, args, result:
+                    (not len(args) == 1) or result == cmd + ' ' + args[0],
+                    'starts-with-the-command': lambda cmd, result: result.startswith(cmd),
+                    'same-expression-same-value': lambda cmd, args, result: result == ' '.join([cmd] + list(args))},
+           raises_only=())
